@@ -122,7 +122,7 @@ package getty
 //@   ensures ghost.regrm_sent == (old(ghost.regrm_sent) || isT(msg.Body, message.RegisterRMRequest)) && ghost.regtm_sent == (old(ghost.regtm_sent) || isT(msg.Body, message.RegisterTMRequest))
 
 //@ func (*GettyRemotingClient).SendAsyncResponse
-//@   prop C15
+//@   prop C15 C14
 //@   requires client != nil && client.gettyRemoting != nil
 //@   modifies ghost.sent, ghost.sent_id, ghost.sent_type, ghost.sent_codec, ghost.sent_body, ghost.sent_err_nil, ghost.regrm_sent, ghost.regtm_sent
 //@   ensures id: ghost.sent == old(ghost.sent) + 1 && ghost.sent_id == msgID && ghost.sent_type == 1 && ghost.sent_codec == 1 && ghost.sent_body == msg
@@ -139,7 +139,7 @@ package getty
 //@   ensures ghost.processed == old(ghost.processed) + 1 && ghost.proc_self == self && ghost.proc_id == rpcMessage.ID && ghost.proc_body == rpcMessage.Body
 
 //@ func (*gettyClientHandler).OnMessage
-//@   prop C15
+//@   prop C15 C14 C19
 //@   modifies ghost.all, heap.all
 //@   requires g != nil && isT(pkg, message.RpcMessage)
 //@   let m := pkg.(message.RpcMessage)
@@ -149,7 +149,7 @@ package getty
 //@   ensures no-processor: p == nil ==> ghost.processed == 0
 
 //@ func (*gettyClientHandler).RegisterProcessor
-//@   prop C15
+//@   prop C15 C14 C19
 //@   modifies heap.all
 //@   requires g != nil && g.processorMap != nil
 //@   ensures stored: processor != nil ==> g.processorMap[msgType] == processor
@@ -227,7 +227,7 @@ package getty
 // request up after the timeout and removes its future (syncCallback/timeout-cleans); without it an
 // unanswered asynchronous request would stay in the table for ever
 //@ func (*GettyRemotingClient).asyncCallback
-//@   prop C14
+//@   prop C14 C15
 //@   ensures waiter-started: result1 == nil && spawned("syncCallback")
 
 //@ func (*GettyRemoting).sendAsync
@@ -256,7 +256,7 @@ package getty
 //@   ensures registry-untouched: syncmapp(g.futures)[box(k, int32)] == old(syncmapp(g.futures)[box(k, int32)])
 
 //@ func (*GettyRemotingClient).syncCallback
-//@   prop C14
+//@   prop C14 C15
 //@   modifies syncmapp(g.gettyRemoting.futures)
 //@   requires g != nil && g.gettyRemoting != nil && g.gettyRemoting.futures != nil && g.gettyRemoting.mergeMsgMap != nil && respMsg != nil
 //@   let k := some(int32, "k")
@@ -267,7 +267,7 @@ package getty
 // ---- C19: session selection and the session registry
 
 //@ func (*SessionManager).selectSession
-//@   prop C19
+//@   prop C19 C14
 //@   modifies syncmap(g, "allSessions"), syncmap(g, "serverSessions"), loadbalance.consistentInstance
 //@   requires g != nil
 //@   ensures live: result != nil ==> !ufb("session.closed", result)
@@ -275,7 +275,7 @@ package getty
 //@   range 1 invariant none-yet: session == nil
 
 //@ func (*SessionManager).registerSession
-//@   prop C19
+//@   prop C19 C14
 //@   requires g != nil && session != nil
 //@   let k := some(getty.Session, "k")
 //@   modifies syncmap(g, "allSessions"), syncmap(g, "serverSessions")
@@ -283,7 +283,7 @@ package getty
 //@   ensures others-unchanged: k != session ==> haskey(syncmap(g, "allSessions"), k) == old(haskey(syncmap(g, "allSessions"), k))
 
 //@ func (*SessionManager).releaseSession
-//@   prop C19
+//@   prop C19 C14
 //@   requires g != nil && session != nil
 //@   let k := some(getty.Session, "k")
 //@   modifies syncmap(g, "allSessions"), syncmap(g, "serverSessions")
@@ -293,7 +293,7 @@ package getty
 // every session that opens - the first one to an address as well as a re-established one - is registered
 // and gets its announcement started (the announcement itself is the literal OnOpen$1 below)
 //@ func (*gettyClientHandler).OnOpen
-//@   prop C19
+//@   prop C19 C14 C15
 //@   requires sessionManager != nil && session != nil
 //@   modifies heap.all, ghost.all
 //@   ensures registered-and-announced: result == nil && haskey(syncmap(sessionManager, "allSessions"), session) && spawned("OnOpen$1")
@@ -303,9 +303,9 @@ package getty
 // the function literal OnOpen$1. has_rm_resources is an unconstrained ghost flag standing for "the
 // client has registered at least one resource with a resource manager".
 //@ func (*gettyClientHandler).OnOpen$1
-//@   prop C19
+//@   prop C19 C14 C15
 //@   modifies ghost.all, heap.all
 //@   requires ghost.sent == 0 && !ghost.regrm_sent && !ghost.regtm_sent && sessionManager != nil && session != nil
 //@   ensures announce-tm: ghost.regtm_sent && ghost.sent >= 1
-//@   ensures announce-rm: ghost.has_rm_resources ==> ghost.regrm_sent
+//@   ensures C19/announce-rm: ghost.has_rm_resources ==> ghost.regrm_sent
 //@   at return: assert unannounced-session-is-not-kept: localor("err", nil) != nil ==> !haskey(syncmap(sessionManager, "allSessions"), session)
